@@ -354,7 +354,7 @@ def gen_mods(rng, tree, n=None):
     return mods
 
 
-def gen_read(rng, tree, systems, hot=None, pool=None):
+def gen_read(rng, tree, systems, hot=None, pool=None, traced_bias=False):
     """hot: (path, dates) recently touched by a write — reads are biased to land there."""
     leaves = PW.leaf_paths(tree)
     sysid = pick(rng, systems)
@@ -365,7 +365,7 @@ def gen_read(rng, tree, systems, hot=None, pool=None):
         else:
             path = pick(rng, leaves)
             date = pick(rng, pool) if pool and chance(rng, 0.4) else PW.rand_date(rng)
-        route = pick(rng, ["a", "a", "a_instant", "a_period", "a_year", "c", "d", "a_wd", "b_wd"])
+        route = pick(rng, ["a", "a", "a_instant", "a_period", "a_year", "c", "d", "a_wd", "b_wd"] + ["d", "d", "d"] * traced_bias)
         if route == "a_year" and chance(rng, 0.7):
             date = date[:4] + "-01-01"
         return ["read", sysid, route, list(path), date]
@@ -406,6 +406,8 @@ def c07_generate(seed: int, tier: str) -> dict:
         for leaf in _leaves_of(alt["T1"][g]):
             leaf["values"] = [[d, (round(v + 1.5, 2) if isinstance(v, float) else v)] for d, v in leaf["values"]]
     orr = st["ops"]
+    long_lived = chance(st["knobs"], 0.5)
+    traced_bias = long_lived and chance(st["knobs"], 0.6)  # many traced formula reads in one simulation
     systems = ["S0"]
     ops = []
     hot = None
@@ -444,10 +446,20 @@ def c07_generate(seed: int, tier: str) -> dict:
             ops.append({"actor": "W", "do": ["load_parameters", pick(orr, systems), pick(orr, ["T0", "T1"]), orr.randrange(1 << 30)]})
             hot = None
         else:
-            rd = gen_read(orr, tree, systems, hot, pool)
+            rd = gen_read(orr, tree, systems, hot, pool, traced_bias)
             ops.append({"actor": pick(orr, ["R1", "R2"]), "do": rd})
             if rd[0] == "read":
                 recent_reads.append((rd[1], tuple(rd[3]), rd[4]))
+    if traced_bias and chance(orr, 0.6):
+        # one simulation, tracing on: a formula reads a parameter at a date, the system's
+        # parameters are reloaded, another formula reads the same parameter at the same date
+        # - the trace must say what each of them read
+        path = list(pick(orr, [("p0",), ("g", "p1"), ("g", "h", "p2")]))
+        date = pick(orr, pool) if pool else PW.rand_date(orr)
+        k = orr.randrange(len(ops) + 1)
+        ops[k:k] = [{"actor": "R1", "do": ["read", "S0", "d", path, date]},
+                    {"actor": "W", "do": ["load_parameters", "S0", pick(orr, ["T1", "T1", "T0"]), orr.randrange(1 << 30)]},
+                    {"actor": "R2", "do": ["read", "S0", "d", path, date]}]
     return {
         "format": 1,
         "property": "C07",
@@ -461,7 +473,7 @@ def c07_generate(seed: int, tier: str) -> dict:
         "style_seed": st["fs"].randrange(1 << 30),
         # formulas read through one long-lived simulation per (system, traced?) whose
         # cached result is deleted before each read - or through a new one each time
-        "long_lived": chance(st["fs"], 0.5),
+        "long_lived": long_lived,
         "ops": ops,
     }
 
@@ -555,21 +567,39 @@ def read_scalar(system, route, path, date, res, keep=None, sid=None):
             return ("undef",) if got is None else ("val", float(got))
         PW.CUR["path"] = tuple(path)
         sim = keep.get((sid, route)) if keep is not None else None
+        var = "rp"
         if sim is not None and sim.tax_benefit_system is system:
-            sim.delete_arrays("rp")  # so that the formula runs again, in the same simulation
+            # two variables read in turn, so that the formula runs again, in the same simulation
+            keep[sid, route, "n"] = keep.get((sid, route, "n"), 0) + 1
+            var = ("rp", "rp2")[keep[sid, route, "n"] % 2]
+            sim.delete_arrays(var)
             res.count("probe:formula_read_in_a_long_lived_simulation")
         else:
             sim = SimulationBuilder().build_default_simulation(system, count=2)
             sim.trace = route == "d"
             if keep is not None:
                 keep[sid, route] = sim
-        out = sim.calculate("rp", date)
+                keep[sid, route, "seen"] = set()
+        try:
+            out = sim.calculate(var, date)
+        finally:
+            key = f"{var}<{periods.period(date)}>"
+            first = keep is None or key not in keep[sid, route, "seen"]
+            if keep is not None:
+                keep[sid, route, "seen"].add(key)
         if route == "d":
             res.count("clause:C07.trace")
             accesses = list(sim.tracer.trees[-1].parameters)  # rp reads no variable: one node
             vals = [a.value for a in accesses if a.name.lstrip(".") == ".".join(path)]
             if len(vals) != 1 or numpy.float32(vals[0]) != out[0]:
                 return ("trace-mismatch", [str(a.name) for a in accesses], [canon(a.value) for a in accesses], canon(out))
+            if first:
+                # ... and what the flat and serialised traces say this formula read (they
+                # keep the first calculation of a variable at a period)
+                for flat in (sim.tracer.get_flat_trace(), sim.tracer.get_serialized_flat_trace()):
+                    said = [v for k, v in flat.get(key, {}).get("parameters", {}).items() if k.lstrip(".").startswith(".".join(path) + "<")]
+                    if len(said) != 1 or said[0] is None or numpy.float32(said[0]) != out[0]:
+                        return ("trace-mismatch", ["flat trace", key], [canon(x) for x in said], canon(out))
         return ("val32", out)
     except ParameterNotFoundError:
         return ("undef",)
